@@ -13,6 +13,33 @@ use std::time::Duration;
 
 pub struct C16;
 
+/// An io::Read / io::Write that transfers at most `piece` bytes per call.
+struct Piecewise {
+    data: Vec<u8>,
+    pos: usize,
+    piece: usize,
+}
+
+impl std::io::Read for Piecewise {
+    fn read(&mut self, buf: &mut [u8]) -> std::io::Result<usize> {
+        let n = buf.len().min(self.piece).min(self.data.len() - self.pos);
+        buf[..n].copy_from_slice(&self.data[self.pos..self.pos + n]);
+        self.pos += n;
+        Ok(n)
+    }
+}
+
+impl std::io::Write for Piecewise {
+    fn write(&mut self, buf: &[u8]) -> std::io::Result<usize> {
+        let n = buf.len().min(self.piece);
+        self.data.extend_from_slice(&buf[..n]);
+        Ok(n)
+    }
+    fn flush(&mut self) -> std::io::Result<()> {
+        Ok(())
+    }
+}
+
 pub const VARINT_MAX: u64 = (1 << 62) - 1;
 
 /// Boundary-biased value that fits a QUIC varint.
@@ -556,6 +583,21 @@ impl C16 {
                 return Err(Fail::new("token_roundtrip", format!("address {i} changed through generate/write/read")));
             }
         }
+        // the same through a reader and a writer that move only a few bytes per call (a token arrives over a stream: io::Read and
+        // io::Write are allowed to transfer less than asked for)
+        {
+            let piece = [1usize, 7, 64, 300, 512, 1000, 2047][(client_id % 7) as usize];
+            let mut pw = Piecewise { data: Vec::new(), pos: 0, piece };
+            token.write(&mut pw).map_err(|e| Fail::new("token_write", format!("write through a writer taking {piece} bytes per call failed: {e}")))?;
+            if pw.data != w {
+                return Err(Fail::new("token_roundtrip", format!("write through a writer taking {piece} bytes per call produced other bytes ({} instead of {})", pw.data.len(), w.len())));
+            }
+            let r2 = ConnectToken::read(&mut pw).map_err(|e| Fail::new("token_roundtrip", format!("read(write(t)) failed through a reader giving {piece} bytes per call: {e}")))?;
+            if r2 != token {
+                return Err(Fail::new("token_roundtrip", format!("read(write(t)) != t through a reader giving {piece} bytes per call")));
+            }
+            ctx.label("token_piecewise_io");
+        }
         // sealed part: open gives exactly what was sealed
         let p = verif_open_private_token(&token.private_data, protocol_id, token.expire_timestamp, &token.xnonce, &key)
             .map_err(|e| Fail::new("token_open", format!("sealed part does not open under its own key: {e}")))?;
@@ -747,7 +789,7 @@ impl Property for C16 {
         "exploration"
     }
     fn rule(&self) -> String {
-        "Cases: (a) generated values of every renet packet kind, every netcode packet kind x sequence-length class 0..8 x payload 0..1300, connect tokens with 1..32 IPv4/IPv6 addresses: decode(encode(v)) == v; (b) mutated serialisations and raw bytes: decode(b)=Ok(v) => decode(encode(v))=Ok(v) for renet packets, keyless netcode requests and ConnectToken::read; (c) ack packets emitted by a real endpoint after feeding it chosen sequence numbers, compared with a BTreeSet model (exhaustively: all subsets of three 12-element universes in 4 arrival orders; generated: up to 300 sequences). Non-trivial: a value crossing a varint/sequence width boundary or a payload packet, a byte string that decodes, a token with >=2 or IPv6 addresses, an ack set with >=3 ranges. Distinct = distinct hash of the decoded case.".into()
+        "Cases: (a) generated values of every renet packet kind, every netcode packet kind x sequence-length class 0..8 x payload 0..1300, connect tokens with 1..32 IPv4/IPv6 addresses (also written and read through an io::Write / io::Read that moves 1..2047 bytes per call): decode(encode(v)) == v; (b) mutated serialisations and raw bytes: decode(b)=Ok(v) => decode(encode(v))=Ok(v) for renet packets, keyless netcode requests and ConnectToken::read; (c) ack packets emitted by a real endpoint after feeding it chosen sequence numbers, compared with a BTreeSet model (exhaustively: all subsets of three 12-element universes in 4 arrival orders; generated: up to 300 sequences). Non-trivial: a value crossing a varint/sequence width boundary or a payload packet, a byte string that decodes, a token with >=2 or IPv6 addresses, an ack set with >=3 ranges. Distinct = distinct hash of the decoded case.".into()
     }
     fn assumptions(&self) -> Vec<String> {
         vec![
